@@ -224,6 +224,7 @@ type Aggregate struct {
 	Violations   []Violation
 	Inconclusive []string
 	Extra        map[string]any // added to coverage by Finalize
+	Notes        []string       // framework remarks that do not affect the verdict (reported in the evidence)
 }
 
 func (a *Aggregate) Violation(key, msg string, detail any) {
@@ -357,6 +358,9 @@ func runWorker(chk *Check, env *Env, outPath, journalPath string, resumeAfter, o
 	if chk.MemLimitMB > 0 && !env.Race {
 		lim := uint64(chk.MemLimitMB) << 20
 		_ = syscall.Setrlimit(syscall.RLIMIT_AS, &syscall.Rlimit{Cur: lim, Max: lim})
+		// the garbage collector works towards a quarter of the hard limit, so that a starved
+		// collector on a loaded machine does not run into the address-space limit by itself
+		debug.SetMemoryLimit(int64(lim / 4))
 	}
 	n, err := chk.Prepare(env)
 	if err != nil {
@@ -428,6 +432,10 @@ func runWorker(chk *Check, env *Env, outPath, journalPath string, resumeAfter, o
 		cur.Lock()
 		cur.idx, cur.start = idx, time.Now()
 		cur.Unlock()
+		if c := os.Getenv("VERIF_SELFTEST_CRASH_CASE"); c != "" && c == strconv.Itoa(idx) && (only < 0 || os.Getenv("VERIF_SELFTEST_CRASH_ALWAYS") != "") {
+			fmt.Fprintln(os.Stderr, "fatal error: selftest crash")
+			os.Exit(2)
+		}
 		if os.Getenv("VERIF_SELFTEST_SLOW_CASE") != "" && idx == slowIdx && (only < 0 || os.Getenv("VERIF_SELFTEST_SLOW_ALWAYS") != "") {
 			time.Sleep(timeout + 2*time.Second) // simulates a case starved by machine load (or, with SLOW_ALWAYS, a real hang)
 		}
@@ -545,6 +553,25 @@ func runDriver(chk *Check, env *Env, nw int, only int) int {
 					key := "crash"
 					if ekey != "" {
 						key = "crash:" + ekey
+					}
+					// a plain-build worker death that does not happen again when the case runs alone
+					// (three attempts) is not attributed to the case: cases are functions of their
+					// index, so this is resource exhaustion of the worker process on a loaded machine
+					if !env.Race && only < 0 {
+						mu.Unlock()
+						reproduced, redo := confirmCrash(chk, env, self, idx)
+						mu.Lock()
+						if !reproduced && redo != "" {
+							extraOuts = append(extraOuts, redo)
+							agg.Notes = append(agg.Notes, fmt.Sprintf("worker %d died at case %d (%v: %s) but the case completed alone three times; not attributed", ws.i, idx, runErr, crashSummary(tail)))
+							mu.Unlock()
+							ws.crashes++
+							if ws.crashes > 40 {
+								return
+							}
+							ws.resumeAfter = idx
+							continue
+						}
 					}
 					marker := "WARNING: DATA RACE"
 					if env.Asan {
@@ -677,6 +704,23 @@ func lastJournal(path string) (idx int, ekey, edesc string, hang bool) {
 		}
 	}
 	return
+}
+
+// confirmCrash re-runs the case alone up to three times; it reports whether any run died, and the
+// output of the last completed run.
+func confirmCrash(chk *Check, env *Env, self string, idx int) (bool, string) {
+	last := ""
+	for try := 0; try < 3; try++ {
+		dir, _ := os.MkdirTemp(env.Scratch, "crash")
+		out := filepath.Join(dir, "o")
+		cmd := exec.Command(self, "--tier", env.Tier, "--worker", "0/1", "--only", strconv.Itoa(idx), "--out", out, "--journal", filepath.Join(dir, "j"))
+		cmd.Env = append(os.Environ(), "VERIF_SEED="+strconv.FormatUint(env.Seed, 10), "VERIF_SCRATCH="+dir, "VERIF_TIER="+env.Tier)
+		if err := cmd.Run(); err != nil || !workerDone(out) {
+			return true, ""
+		}
+		last = out
+	}
+	return false, last
 }
 
 // confirmHang re-runs the case alone, twice. If a run completes, the watchdog firing was load, not
@@ -825,6 +869,9 @@ func report(chk *Check, env *Env, agg *Aggregate, ncases int, wall time.Duration
 	}
 	if knownSeen > 0 {
 		cov["known_findings_observed"] = knownSeen
+	}
+	if len(agg.Notes) > 0 {
+		cov["framework_notes"] = agg.Notes
 	}
 	ev := map[string]any{
 		"property_id": chk.ID,
